@@ -591,8 +591,7 @@ func vC12QueryCase(r *rand.Rand, out *vC12Out) {
 // the operator-facing configuration -> the policy every ledger is created from, and what a ledger
 // created from it then admits: configured limits are the enforced ones, omitted ones get the defaults
 func vC12PolicyCase(r *rand.Rand, out *vC12Out) {
-	modes := []config.RecursionFirewallMode{"", config.RecursionFirewallModeOff, config.RecursionFirewallModeShadow, config.RecursionFirewallModeEnforce, "Enforce"}
-	mi := r.Intn(len(modes))
+	mi := r.Intn(5)
 	if mi == 4 && r.Intn(3) != 0 {
 		mi = 3
 	}
@@ -608,8 +607,39 @@ func vC12PolicyCase(r *rand.Rand, out *vC12Out) {
 			return uint32(1 + r.Intn(40))
 		}
 	}
-	raw := config.RecursionFirewallConfig{Mode: modes[mi], MaxOutboundQueries: lim(), MaxInternalQueries: lim(), MaxDNSKEYCandidates: lim(),
-		MaxRRsetSignatureChecks: lim(), MaxSignatureChecks: lim(), MaxDSDigests: lim(), MaxNSEC3Hashes: lim(), MaxConcurrentCrypto: lim()}
+	vC12PolicyRun(mi, [8]uint32{lim(), lim(), lim(), lim(), lim(), lim(), lim(), lim()}, out)
+}
+
+// fixed configurations from corpus/C12/policy.json (minimal inputs of seeded changes the check caught), replayed first
+func vC12PolicyCorpus(out *vC12Out) {
+	dir := os.Getenv("VERIF_CORPUS")
+	if dir == "" {
+		return
+	}
+	b, err := os.ReadFile(dir + "/policy.json")
+	if err != nil {
+		return
+	}
+	var entries []struct {
+		Mode int      `json:"mode"`
+		Lims []uint32 `json:"lims"`
+	}
+	if json.Unmarshal(b, &entries) != nil {
+		return
+	}
+	for _, e := range entries {
+		var l [8]uint32
+		copy(l[:], e.Lims)
+		if e.Mode >= 0 && e.Mode <= 4 {
+			vC12PolicyRun(e.Mode, l, out)
+		}
+	}
+}
+
+func vC12PolicyRun(mi int, l [8]uint32, out *vC12Out) {
+	modes := []config.RecursionFirewallMode{"", config.RecursionFirewallModeOff, config.RecursionFirewallModeShadow, config.RecursionFirewallModeEnforce, "Enforce"}
+	raw := config.RecursionFirewallConfig{Mode: modes[mi], MaxOutboundQueries: l[0], MaxInternalQueries: l[1], MaxDNSKEYCandidates: l[2],
+		MaxRRsetSignatureChecks: l[3], MaxSignatureChecks: l[4], MaxDSDigests: l[5], MaxNSEC3Hashes: l[6], MaxConcurrentCrypto: l[7]}
 	var pol RecursionWorkPolicy
 	panicked := false
 	func() {
@@ -660,6 +690,7 @@ func TestVerifC12Ledger(t *testing.T) {
 		n = 400
 	}
 	r := rand.New(rand.NewSource(int64(seed)*7919 + 12))
+	vC12PolicyCorpus(out)
 	for c := 0; c < n; c++ {
 		vC12LedgerCase(r, out)
 		if c%4 == 0 {
